@@ -92,6 +92,12 @@ func genUnit(r *hx.Rand, i int) interface{} {
 	if r.Chance(1, 25) {
 		in.Wire = append(in.Wire, wireHdr{"X-Forwarded-For", nil})
 	}
+	for n := r.Intn(8); n >= 6; n-- { // 1/8 one Connection header, 1/8 two
+		in.Wire = append(in.Wire, genConnection(r, in.Cfg))
+	}
+	if r.Chance(1, 60) {
+		in.Wire = append(in.Wire, wireHdr{"Connection", nil})
+	}
 	if r.Chance(1, 14) {
 		in.Host = r.Pick(hostV6)
 	} else {
